@@ -188,6 +188,71 @@ impl World<'_> {
     }
 }
 
+pub fn act_code(a: Act) -> String {
+    match a {
+        Act::Export(t) => format!("export:{t}"),
+        Act::ExportAll(t) => format!("export_all:{t}"),
+        Act::ExportAllTo(t, s) => format!("export_all_to:{t}:{s}"),
+        Act::ExportAllToOther(t) => format!("export_all_to_other:{t}"),
+    }
+}
+
+pub fn act_parse(c: &str) -> Act {
+    let p: Vec<&str> = c.split(':').collect();
+    let n = |i: usize| p[i].parse::<usize>().expect("action code");
+    match p[0] {
+        "export" => Act::Export(n(1)),
+        "export_all" => Act::ExportAll(n(1)),
+        "export_all_to" => Act::ExportAllTo(n(1), n(2)),
+        "export_all_to_other" => Act::ExportAllToOther(n(1)),
+        other => panic!("unknown action {other}"),
+    }
+}
+
+/// `e3 replay <file>`: re-execute one recorded history / schedule and print what happens.
+pub fn replay(args: &[String]) {
+    let text = std::fs::read_to_string(&args[0]).expect("replay file");
+    let v: Value = serde_json::from_str(&text).expect("json");
+    let ex = v["examples"].get(0).cloned().unwrap_or(v.clone());
+    let r = &ex["replay"];
+    match r["mode"].as_str() {
+        Some("bfs") => {
+            let uni = corpus::u::types();
+            let mut scratch = Scratch::new("replay");
+            let wd0 = scratch.fresh();
+            std::env::set_current_dir(&wd0).unwrap();
+            std::env::remove_var("TS_RS_EXPORT_DIR");
+            let singles = universe_singles(&uni).expect("single-type outputs");
+            let envs = ["unset", "rel", "dotrel", "abs", "dots", "trailing"];
+            let inits = ["empty", "stale", "previous"];
+            let env = envs.iter().copied().find(|e| Some(*e) == r["env"].as_str()).expect("env");
+            let init = inits.iter().copied().find(|e| Some(*e) == r["init"].as_str()).expect("init");
+            let cfg = Config { env, init };
+            let w = World { uni: &uni, singles, cfg: &cfg, all_spellings: r["all_spellings"].as_bool().unwrap_or(false), second_dir: true };
+            let (wd, d, initial) = w.setup(&mut scratch);
+            let mut model = BTreeSet::new();
+            for c in r["history"].as_array().expect("history") {
+                let a = act_parse(c.as_str().unwrap());
+                let res = w.apply(a, &wd, d);
+                w.model_add(&mut model, a);
+                println!("{} -> {:?}", w.act_desc(a, &wd, d), res);
+            }
+            let got = snapshot(&wd.join(d));
+            let exp = w.expected(&model, &initial);
+            println!("tree equals reference model: {}", got == exp);
+            if got != exp {
+                println!("{}", serde_json::to_string_pretty(&diff_trees(&got, &exp)).unwrap());
+            }
+            let (go, eo) = (snapshot(&wd.join("elsewhere")), w.expected_other(&model));
+            if go != eo {
+                println!("second directory differs: {}", serde_json::to_string_pretty(&diff_trees(&go, &eo)).unwrap());
+            }
+        }
+        Some("sched") => crate::sched::replay(r),
+        _ => println!("this replay file carries no machine-replayable trace; its `examples` show the failing case (source / paths / values)"),
+    }
+}
+
 fn entry_mix(h: &[Act]) -> Vec<&'static str> {
     let mut s = BTreeSet::new();
     for a in h {
@@ -304,11 +369,12 @@ fn bfs_one(w: &World, depth: usize, max_states: usize, scratch: &mut Scratch, re
             rep.transitions += 1;
             rep.evaluations += 1;
             let hd: Vec<String> = hist.iter().map(|&b| w.act_desc(b, &wd, d)).collect();
+            let hcode: Vec<String> = hist.iter().map(|&b| act_code(b)).collect();
             let class_base = json!({"env": w.cfg.env, "init": w.cfg.init, "entries": entry_mix(&hist)});
             if let Some((i, e)) = failed {
                 let mut c = class_base.clone();
                 c["check"] = json!("export-fails");
-                rep.violation(c, json!({"history": hd, "failed_step": i, "error": e}));
+                rep.violation(c, json!({"history": hd, "replay": {"mode": "bfs", "env": w.cfg.env, "init": w.cfg.init, "all_spellings": w.all_spellings, "history": hcode}, "failed_step": i, "error": e}));
                 let _ = std::fs::remove_dir_all(&wd);
                 continue;
             }
@@ -326,7 +392,7 @@ fn bfs_one(w: &World, depth: usize, max_states: usize, scratch: &mut Scratch, re
                 c["check"] = json!("tree-vs-reference");
                 rep.violation(
                     c,
-                    json!({"history": hd, "model": model.iter().filter(|&&t| t < OTHER).map(|&t| w.uni[t].info.rust).collect::<Vec<_>>(), "diff": diff_trees(&got, &exp), "registry": reg}),
+                    json!({"history": hd, "replay": {"mode": "bfs", "env": w.cfg.env, "init": w.cfg.init, "all_spellings": w.all_spellings, "history": hcode}, "model": model.iter().filter(|&&t| t < OTHER).map(|&t| w.uni[t].info.rust).collect::<Vec<_>>(), "diff": diff_trees(&got, &exp), "registry": reg}),
                 );
             }
             let got_other = snapshot(&wd.join("elsewhere"));
@@ -336,7 +402,7 @@ fn bfs_one(w: &World, depth: usize, max_states: usize, scratch: &mut Scratch, re
                 c["check"] = json!("second-directory-tree-vs-reference");
                 rep.violation(
                     c,
-                    json!({"history": hd, "model": model.iter().map(|&t| if t >= OTHER { format!("elsewhere:{}", w.uni[t - OTHER].info.rust) } else { w.uni[t].info.rust.to_string() }).collect::<Vec<_>>(), "diff": diff_trees(&got_other, &exp_other)}),
+                    json!({"history": hd, "replay": {"mode": "bfs", "env": w.cfg.env, "init": w.cfg.init, "all_spellings": w.all_spellings, "history": hcode}, "model": model.iter().map(|&t| if t >= OTHER { format!("elsewhere:{}", w.uni[t - OTHER].info.rust) } else { w.uni[t].info.rust.to_string() }).collect::<Vec<_>>(), "diff": diff_trees(&got_other, &exp_other)}),
                 );
             }
             let gk = format!("{}|{}", serde_json::to_string(&files_of(&got)).unwrap(), serde_json::to_string(&files_of(&got_other)).unwrap());
